@@ -316,14 +316,14 @@ theorem fullIndex_length (idx : List Idx) (n : Nat) (h : idx.length ≤ n) : (fu
 theorem accept_sound {α β : Type} (F : List (List Nat → Blk α) → List Int → β) (outInd : List Nat)
     (ops : List (Operand α)) (adjust : List (Nat × AdjKind)) (newAxes : List (Nat × List Int))
     (oc : List (List Int)) (idx : List Idx) (r : Result)
-    (h : acceptCoarse ⟨outInd, ops.map Operand.toOpd, adjust, newAxes⟩ oc idx = some r)
+    (h : acceptCoarse0 ⟨outInd, ops.map Operand.toOpd, adjust, newAxes⟩ oc idx = some r)
     (hoc : ∀ cs ∈ oc, ∀ c ∈ cs, 0 ≤ c) (hlen : oc.length = outInd.length) (hil : idx.length ≤ outInd.length)
     (hok : idxsOK oc (fullIndex idx outInd.length) = true)
     (hkeep : keepsAll outInd r.plans (ops.map Operand.toOpd) = true)
     (q : List Nat) (hql : q.length = outInd.length) (hq : inSels oc (fullIndex idx outInd.length) q = true) :
     indexDen (bwDen F outInd ops oc) (oc.map isum) (fullIndex idx outInd.length) q
       = rewrittenDen F outInd ops (keptOut oc r.plans) r q := by
-  unfold acceptCoarse at h
+  unfold acceptCoarse0 at h
   simp only at h
   cases hp : axisPlans oc (fullIndex idx outInd.length) with
   | none => rw [hp] at h; simp at h
